@@ -4,9 +4,13 @@ import runlib as R
 ID = 'C20'
 COQ_TARGETS = ['Props/Properties_C20.vo']
 PROPS_FILES = ['Props/Properties_C20.v']
-THEOREMS = ['C20_sortmx', 'C20_sortmx_stable', 'C20_spec_checker_sound', 'C20_tryconn_once', 'C20_not_me', 'C20_targets', 'C20_route_order', 'C20_route_empty_relay', 'C20_dnsmx', 'C20_getmxlist', 'C20_main', 'C20_ports']
+THEOREMS = ['C20_sortmx', 'C20_sortmx_stable', 'C20_spec_checker_sound', 'C20_tryconn_once', 'C20_not_me', 'C20_targets', 'C20_route_order', 'C20_route_empty_relay', 'C20_dnsmx', 'C20_getmxlist', 'C20_main', 'C20_connect_compose', 'C20_connect_once', 'C20_connect_noent_after_all',
+            'C20_connect_total', 'C20_temp_failure_refuted', 'C20_temp_failure_partial', 'C20_connect_exit_classes', 'C20_ports']
 ENGINES = [dict(name='mx', c_sources=['mx_h.c'], extract='Extract/Extract_mx.v', driver='mx_driver.ml',
-                accepts=lambda c: c.split(' ')[0] in ('01', '02', '03', '04', '05', '06', '07'))]
+                accepts=lambda c: c.split(' ')[0] in ('01', '02', '03', '04', '05', '06', '07')),
+           # connect_mx() over the real tryconn(): the harness of C18/C04 (real main, conn_mx.c, conn.c, greeting.c, starttlsr.c, netio.c), op ca
+           dict(name='mxconn', c_sources=['tlssw_h.c'], extract='Extract/Extract_mxconn.v', driver='mxconn_driver.ml',
+                glue=('glue.ml', 'glue_z.ml'), accepts=lambda c: c.startswith('ca '), shrink_from=5)]
 RULE = ('cases = (01) MX lists of 1..9 entries, preferences drawn from a small set with many ties plus the special values '
         '65535..65539 and 2^32-1, 1..4 addresses per entry from a small pool of IPv6 / v4-mapped / nearly-v4-mapped addresses, '
         'a few entries without addresses; (02) the same lists fresh or with USED/CURRENT marks and cur_s 0..3, 0..12 tryconn calls, '
@@ -248,7 +252,27 @@ def main_case(rng):
 def total_addrs(es):
     return sum((len(e) // 2 - 5) // 16 for e in es)
 
+def mxconn_case(rng):
+    import C04
+    nent = rng.choice([1, 1, 2, 2, 3, 4])
+    spec = b''; succ = 0
+    for i in range(nent):
+        cnt = rng.choice([1, 1, 2, 3])
+        oc = []
+        for j in range(cnt):
+            o = 0 if rng.random() < 0.6 and succ < 8 else rng.choice([111, 110, 113, 101])
+            succ += (o == 0); oc.append(o)
+        spec += bytes([1 if rng.random() < 0.5 else 0, cnt]) + bytes(oc)
+    nserv = succ + (1 if rng.random() < 0.1 and succ < 8 else 0)
+    servers = []
+    for i in range(nserv):
+        servers += C04.gen_conn(rng, i == nserv - 1)
+    ht = bytes([3, rng.choice([0, 1, 2])]) if rng.random() < 0.08 else b''
+    return ' '.join(['ca', '%02x' % (1 if rng.random() < 0.08 else 0), '%02x' % nserv, R.hx(spec), R.hx(ht)] + servers)
+
 def gen_cases(engine, rng, tier):
+    if engine == 'mxconn':
+        return [mxconn_case(rng) for _ in range(1200 if tier == 'quick' else 40000)]
     n = 1500 if tier == 'quick' else 30000
     out = []
     for i in range(n):
@@ -283,8 +307,31 @@ def gen_cases(engine, rng, tier):
 def _entries(fields):
     return [bytes.fromhex(f) for f in fields if f != '-']
 
+def _ca_obs(case, c_out):
+    f = case.split(' ')
+    spec = bytes.fromhex(f[3]) if f[3] != '-' else b''
+    total, o = 0, 0
+    while o + 1 < len(spec):
+        total += spec[o + 1]; o += 2 + spec[o + 1]
+    toks = c_out.split(' ')
+    used = any(t.startswith('M') for t in toks)
+    att = [t for t in toks if t.startswith('ATT')]
+    natt = 0 if not att or att[0] == 'ATT-' else (len(att[0]) - 3) // 2
+    return total, natt, used
+
+def classify(case, c_out):
+    # F-C20-5: the run ended without using a connection although candidates were left (spec: early_exit_b)
+    if case.startswith('ca ') and c_out.startswith('B '):
+        total, natt, used = _ca_obs(case, c_out)
+        if not used and natt < total:
+            return 'gives-up-with-candidates-left'
+    return None
+
 def nontrivial(case, c_out):
     f = case.split(' ')
+    if f[0] == 'ca':
+        total, natt, used = _ca_obs(case, c_out)
+        return natt >= 2
     if f[0] == '01':
         pr = [e[:4] for e in _entries(f[1:])]
         return c_out.startswith('OK') and len(pr) != len(set(pr))
@@ -305,6 +352,11 @@ def distribution(results):
     d = {}
     for r in results:
         op = r['case'][:2]
+        if op == 'ca':
+            total, natt, used = _ca_obs(r['case'], r['c'])
+            k = 'ca:' + ('used' if used else 'all-tried' if natt == total else 'gave-up-early')
+            d[k] = d.get(k, 0) + 1
+            continue
         k = op + ':' + ('crash' if r['c'] in ('CRASH', 'TIMEOUT') else 'allme' if r['c'].endswith('ALLME') else 'die' if r['c'].startswith('DIE') else 'rc' if r['c'].startswith('RC') else 'fatal' if r['c'] == 'FATAL' else 'pre' if r['spec'] == 'pre' else 'noroute' if r['c'].endswith(' NONE') else 'run')
         d[k] = d.get(k, 0) + 1
     return d
